@@ -27,7 +27,7 @@ def plan_batches(steps, R, P, faulty):
         steps.append({'k': 'msg', 'op': op, 'knobs': {}, 'path': 'str', 'merge': False, 'extra': True})
         return len(_store_steps(steps)) - 1
 
-    usable = [i for i, s in enumerate(st) if s['op']['type'] != 'Raw' and not s.get('corrupt') and not s['op'].get('malformed')]
+    usable = [i for i, s in enumerate(st) if s['op']['type'] != 'Raw' and not s.get('corrupt') and not s['op'].get('malformed') and not s.get('remid')]
     n_batches = R.choice([1, 1, 2, 3])
     for _ in range(n_batches):
         sel = list(usable)
@@ -191,6 +191,8 @@ def _merge(mc, strict):
     with warnings.catch_warnings(record=True) as w:
         warnings.resetwarnings()
         warnings.simplefilter('always')
+        from .engine import HOST_FILTER
+        warnings.filterwarnings('ignore', message=HOST_FILTER)
         exc = None
         try:
             mc.merge(strict=strict)
